@@ -1,6 +1,7 @@
 package vm
 
 import (
+	"github.com/mattn/anko/ast"
 	"github.com/mattn/anko/env"
 	zz "github.com/mattn/anko/zzverif"
 )
@@ -15,4 +16,21 @@ func ZZ_smoke_add() {
 	zz.Assert(err == nil, "smoke.noerr")
 	i, ok := v.(int64)
 	zz.Assert(ok && i == 3, "smoke.value")
+}
+
+func ZZ_smoke_floatidx() {
+	inner := []string{"+", "-", "*", "/"}
+	op1 := inner[zz.Choose(len(inner))]
+	op2 := []string{"|", ">>"}[zz.Choose(2)]
+	xv, _ := zzNumOf(zz.Choose(2))
+	yv, _ := zzNumOf(zz.Choose(2))
+	zv, _ := zzNumOf(zz.Choose(2))
+	var expr ast.Expr
+	if zz.Choose(2) == 0 {
+		expr = zzBinOp(op2, zzBinOp(op1, zzLit(xv), zzLit(yv)), zzLit(zv))
+	} else {
+		expr = zzBinOp(op2, zzLit(xv), zzBinOp(op1, zzLit(yv), zzLit(zv)))
+	}
+	rv, err := zzEval(env.NewEnv(), expr)
+	zz.Assert(err == nil && rv.IsValid(), "smoke.floatidx")
 }
